@@ -283,8 +283,10 @@ def router(ctx, prog):
     hd = [bb for bb, t in body.calls() if callee_path(t).endswith("Router::handle_disconnection") and not body.is_cleanup(bb)]
     live = reachable(body, (0,))
     hd = [h for h in hd if h in live]
-    if not hd:
+    if not hd and ctx.config == "features":
         ctx.vacuous(rule, "takeover of an existing connection with the same client id is configured away (allow-duplicate-clientid)")
+    elif not hd:
+        ctx.violation(rule, body.id, "no takeover", "without the allow-duplicate-clientid feature a connection with an already connected client id must replace the old one, but handle_new_connection no longer disconnects it", site=body.fn_loc())
     else:
         t = body.blocks[hd[0]]["t"]
         src = flatten_src(provenance(body, t["args"][1]))
